@@ -15,16 +15,6 @@ Require Import JF.Proofs.CellsProofs JF.Proofs.CellIndexProofs.
 Import ListNotations.
 Local Open Scope Z_scope.
 
-(** Concrete floats for the non-vacuity examples: L = 1.0, 3 cells (the grid of finding F2). *)
-Definition ex_L : f64 := fone.
-Definition ex_s : f64 := side ex_L 3.
-Definition ex_top : f64 := fpred ex_L.
-Definition ex_quarter : f64 := of_bits 0x3FD0000000000000.
-Definition ex_mins : list f64 := map of_bits [0; 0x3FD5555555555555; 0x3FE5555555555555].
-
-Ltac by_eval := vm_compute; reflexivity.
-Ltac ex_inD := split; [by_eval | split; [change 0%R with (val fzero) |]; apply fle_spec; by_eval].
-
 (* ------------------------------------------------------------------------------------------- *)
 (** ** 1. position -> cell index (one direction) *)
 
@@ -119,8 +109,16 @@ Qed.
     greatest (upper loops) float of [0, top] that is mapped to cell i — provided cell i is not empty
     (witness w), the start point lies in [0, top] on the right side of the cell, and (upper loops) some
     position z is mapped above cell i.  "With enough fuel" = the loops return [Some _]; the real loops
-    are observed to terminate on every generated grid (the constructor returns). *)
-Theorem extent_loops_correct :
+    are observed to terminate on every generated grid (the constructor returns).
+
+    PARTIAL.  Full statement (not proved):
+      forall L n i, L finite, 2^-1000 <= L, 1 <= n <= 2^30, 0 <= i < n ->
+        exists fuel mn mx, cell_min fuel L n i = Some mn /\ cell_max fuel L n i = Some mx /\
+          is_fmin (side L n) (fpred L) n i mn /\ is_fmax (side L n) (fpred L) n i mx.
+    Missing: (a) termination (a bound on the number of steps), (b) the float error analysis showing that
+    the start points fl(i*side), fl((i+1)*side) satisfy the hypotheses below and that no cell is empty,
+    for all L and n.  (b) is evaluated in Coq for every generated grid ([pre_ok], case CPre). *)
+Theorem extent_loops_correct_partial :
   (forall (s top : f64) (n i : Z) fuel (start w r : f64),
      1 <= n -> 1 <= i -> (0 < val s)%R -> ffinite (fdiv top s) = true ->
      inD top start -> idx s n start <= i ->
@@ -135,9 +133,9 @@ Theorem extent_loops_correct :
      upper_loops fuel next_float_up next_float_down (idx s n) i start = Some r ->
      inD top r /\ idx s n r = i /\ (forall y, inD top y -> idx s n y = i -> (val y <= val r)%R)).
 Proof. exact CellsProofs.extent_loops_correct_lemma. Qed.
-Print Assumptions extent_loops_correct.
+Print Assumptions extent_loops_correct_partial.
 
-Example extent_loops_correct_nonvacuous :
+Example extent_loops_correct_partial_nonvacuous :
   let start := lower_start ex_s 1 in let w := nth 1 ex_mins fzero in
   (0 < val ex_s)%R /\ ffinite (fdiv ex_top ex_s) = true /\
   inD ex_top start /\ idx ex_s 3 start <= 1 /\ inD ex_top w /\ idx ex_s 3 w = 1 /\
@@ -155,8 +153,12 @@ Qed.
     If the constructor's loops returned mn i / mx i for every cell, then: the first cell starts at 0 and the
     last ends at the largest float below L (the grid covers [0, L)); the float following mx i is mn (i+1)
     (cells abut without gap or overlap); and every position of [0, pred L] is mapped to a cell of the
-    grid, lies in that cell's recorded extent, and lies in no other cell's extent. *)
-Theorem grid_partition : forall fuel (L : f64) (n : Z) (ws : list f64) (mn mx : Z -> f64),
+    grid, lies in that cell's recorded extent, and lies in no other cell's extent.
+
+    PARTIAL.  Full statement (not proved): the same conclusions for all finite L >= 2^-1000 and all
+    1 <= n <= 2^30 without the hypothesis [pre_ok] and with the existence of fuel / mn / mx as a conclusion
+    (see extent_loops_correct_partial for what is missing). *)
+Theorem grid_partition_partial : forall fuel (L : f64) (n : Z) (ws : list f64) (mn mx : Z -> f64),
   let s := side L n in let top := fpred L in
   pre_ok L n ws = true ->
   (forall i, 0 <= i < n -> cell_min fuel L n i = Some (mn i) /\ cell_max fuel L n i = Some (mx i)) ->
@@ -168,9 +170,9 @@ Theorem grid_partition : forall fuel (L : f64) (n : Z) (ws : list f64) (mn mx : 
      (val (mn (idx s n x)) <= val x <= val (mx (idx s n x)))%R /\
      (forall c, 0 <= c < n -> (val (mn c) <= val x <= val (mx c))%R -> c = idx s n x)).
 Proof. exact CellsProofs.grid_partition_checked. Qed.
-Print Assumptions grid_partition.
+Print Assumptions grid_partition_partial.
 
-Example grid_partition_nonvacuous :
+Example grid_partition_partial_nonvacuous :
   pre_ok ex_L 3 ex_mins = true /\
   check_extents ex_L 3 0 [0; 0x3FD5555555555555; 0x3FE5555555555555]
                          [0x3FD5555555555554; 0x3FE5555555555554; 0x3FEFFFFFFFFFFFFF] = true.
@@ -185,16 +187,29 @@ Theorem flat_bijective : forall ns,
   (forall id, valid ns id -> 0 <= flat ns id < number_of_cells ns /\ unflat ns (flat ns id) = id) /\
   (positive_counts ns -> forall k, 0 <= k < number_of_cells ns ->
      flat ns (unflat ns k) = k /\ valid ns (unflat ns k)).
-Proof.
-  exact (fun ns => conj (fun id H => conj (flat_range ns id H) (unflat_flat ns id H))
-                        (fun Hp k Hk => flat_unflat ns k Hp Hk)).
-Qed.
+Proof. exact flat_bijective_lemma. Qed.
 Print Assumptions flat_bijective.
 
 Example flat_bijective_nonvacuous :
   valid [4; 5; 3] [3; 4; 2] /\ flat [4; 5; 3] [3; 4; 2] = 59 /\ unflat [4; 5; 3] 59 = [3; 4; 2] /\
   positive_counts [4; 5; 3].
 Proof. split; [apply validb_spec; reflexivity|]. repeat split; repeat constructor. Qed.
+
+(** All directions together: the identifier computed by position_to_cell (per-direction [_cell_index],
+    model [idx_vec]) is a valid identifier, so its flat index names exactly one cell of [_cells]. *)
+Theorem position_to_cell_in_grid : forall (ss : list f64) (ns xs : list Z),
+  length ns = length ss -> length xs = length ss ->
+  Forall (fun s => (0 < val s)%R) ss -> Forall (fun n => 1 <= n) ns ->
+  Forall (fun x => ffinite (of_bits x) = true /\ (0 <= val (of_bits x))%R) xs ->
+  valid ns (idx_vec ss ns xs) /\ 0 <= flat ns (idx_vec ss ns xs) < number_of_cells ns.
+Proof. exact position_to_cell_in_grid_lemma. Qed.
+Print Assumptions position_to_cell_in_grid.
+
+Example position_to_cell_in_grid_nonvacuous :
+  let ss := sides [0x3FF0000000000000; 0x4000000000000000] [3; 5] in
+  let xs := [0x3FEFFFFFFFFFFFFF; 0x3FF0000000000000] in
+  Forall (fun s => fgt s fzero = true) ss /\ idx_vec ss [3; 5] xs = [2; 2] /\ flat [3; 5] [2; 2] = 8.
+Proof. cbv zeta. split; [repeat constructor | split; by_eval]. Qed.
 
 (** The constructor's odometer stores the cell with flat index k at list position k. *)
 Theorem cell_list_order : forall ns k, positive_counts ns -> 0 <= k < number_of_cells ns ->
@@ -228,7 +243,7 @@ Proof. split; [apply validb_spec; reflexivity|]. split; [apply validb_spec; refl
     reflexive, duplicate-free (also when 2*layers+1 exceeds the number of cells in a direction) *)
 Theorem nearby_characterised : forall l ns a b,
   (In b (nearby_p l ns a) <-> near l ns a b) /\ NoDup (nearby_p l ns a).
-Proof. exact (fun l ns a b => conj (In_nearby_p l ns a b) (nearby_p_NoDup l ns a)). Qed.
+Proof. exact nearby_characterised_lemma. Qed.
 Print Assumptions nearby_characterised.
 
 Example nearby_characterised_nonvacuous : length (nearby_p 2 [4; 5; 3] [0; 0; 0]) = 60%nat.
@@ -272,10 +287,7 @@ Proof. split; [apply validb_spec; reflexivity|]. split; [reflexivity | vm_comput
 Theorem neighbor_is_translate_unit : forall ns a d positive, valid ns a ->
   neighbor_p ns a d positive = translate ns a (unit_cell ns d positive) /\
   neighbor_p ns (neighbor_p ns a d positive) d (negb positive) = a.
-Proof.
-  exact (fun ns a d p H => conj (CellIndexProofs.neighbor_is_translate_unit ns a d p H)
-                                (neighbor_p_inverse ns a d p H)).
-Qed.
+Proof. exact neighbor_unit_lemma. Qed.
 Print Assumptions neighbor_is_translate_unit.
 
 Example neighbor_is_translate_unit_nonvacuous :
@@ -295,15 +307,7 @@ Theorem nonperiodic_relations : forall l ns a,
   (forall b, In b (nearby_np l ns a) -> In b (nearby_p l ns a)) /\
   (forall b, valid ns b -> (In b (nearby_np l ns a) <-> In a (nearby_np l ns b))) /\
   (0 <= l -> In a (nearby_np l ns a)).
-Proof.
-  exact (fun l ns a H =>
-    conj (fun d p b => neighbor_np_some ns a d p b H)
-   (conj (fun d p Hd => neighbor_np_none ns a d p H Hd)
-   (conj (fun b => In_nearby_np l ns a b)
-   (conj (fun b => nearby_np_subset l ns a b)
-   (conj (fun b Hb => nearby_np_symmetric l ns a b H Hb)
-         (fun Hl => nearby_np_refl l ns a Hl H)))))).
-Qed.
+Proof. exact nonperiodic_relations_lemma. Qed.
 Print Assumptions nonperiodic_relations.
 
 Example nonperiodic_relations_nonvacuous :
